@@ -266,7 +266,7 @@ def plan(pid, tier):
     P['C13'] = lambda: (sweep_jobs('h_args', 'c13_grid', 4) + rc_jobs('h_args', 'c13_grid_rc', 2, 1500 if q else 30000)
                         + sweep_jobs('h_args', 'c13_box', 6 if q else 16) + rc_jobs('h_args', 'c13_box_rc', 4, 3000 if q else 60000))
     P['C14'] = lambda: (rc_jobs('h_state', 'c14', 8, 400 if q else 6000) + sweep_jobs('h_state', 'c14_exhaustive', 8) + ([] if q else fuzz_jobs('fuzz_api', 'C14', 6, 240)))
-    P['C15'] = lambda: rc_jobs('h_state', 'c15', 16, 2500 if q else 40000)
+    P['C15'] = lambda: rc_jobs('h_state', 'c15', 12, 2500 if q else 40000) + sweep_jobs('h_state', 'c15_guard_sweep', 4 if q else 12)
     P['C16'] = lambda: (rc_jobs('h_state', 'c16', 14, 1200 if q else 20000) + sweep_jobs('h_state', 'c16_pairs', 2) + ([] if q else fuzz_jobs('fuzz_api', 'C16', 8, 300)))
     P['C17'] = lambda: (sweep_jobs('h_fault', 'c17_single', 6) + rc_jobs('h_fault', 'c17', 10, 400 if q else 6000))
     P['C19'] = lambda: (rc_jobs('h_codec', 'c19', 6, 1500 if q else 30000) + sweep_jobs('h_codec', 'c19_sweep', 6 if q else 12) + rc_jobs('h_codec', 'c19_inv', 3, 800 if q else 10000) + sweep_jobs('h_codec', 'c19_singular', 3 if q else 8)
@@ -290,11 +290,11 @@ RULES = {
     'C06': 'enumerated: all 38 flat-XOR tables x all disjoint (R non-empty, X) with |R|+|X|<hd in both list orders; RS n<=8 (quick) / n<=12 (thorough) and ISA-L n<=6/10 x all (R,X) with |R|+|X|<=m; rapidcheck-generated pairs for larger shapes incl. beyond tolerance. Oracle on the returned list (n-int output buffer behind an ASan red zone): termination, range, distinctness, disjointness, sufficiency (RS/ISA: exactly k and reconstruct from only those fragments reproduces each requested fragment; XOR: GF(2) span + XOR of the actual payloads). Beyond tolerance: error or a list passing the same test. Non-trivial: X hits the unconstrained answer, or |R|>=2.',
     'C09': 'base headers from real fragments over all back ends/checksum types/legacy or standard metadata CRC; mutation programs (bit flips, byte sets, multi-byte edits, version and magic rewrites, field-wise endianness conversion) followed by one of 7 re-seal variants; sweep: all 640 single-bit flips with and without re-seal for 40 base headers. Oracle: independent accept predicate for header validation, the metadata query, decode and reconstruct (-EBADHEADER exactly when unacceptable); bytes unchanged. Non-trivial: header changed and (reference rejects, or re-sealed, or version/magic/endianness touched).',
     'C10': 'CRC32 configurations x writer env value x reader env value x source (encode or reconstruct) x payload corruption (single bit, burst, byte, stored-field rewrites re-sealed); sweep: every single-bit flip of payloads of 2..64 bytes; plus liberasurecode_crc32_alt vs a bit-serial model on generated buffers. Non-trivial: payload contains a byte >= 0x80 and a corruption was applied.',
-    'C11': 'fragment from encode (all back ends, both checksum types), optional asymmetric overwrite of fields that read the same both ways, optional payload bit flip; twin = field-wise byte-swapped header with swapped CRC. Oracle: metadata(twin) == metadata(native) field by field, equal return codes and header verdicts. Non-trivial: CRC32 fragment with corrupted payload.',
+    'C11': 'fragment from encode (all back ends, both checksum types), optional asymmetric overwrite of fields that read the same both ways, optional payload bit flip, writer and reader values of the legacy-CRC switch; twin = field-wise byte-swapped header with swapped CRC. Oracle: metadata(twin) == metadata(native) field by field, equal return codes and header verdicts. Non-trivial: CRC32 fragment with corrupted payload.',
     'C12': 'validator instance x producer instance (same, other shape, other back end) x fragment x one edit (index boundary values, back-end id 0..255, back-end version, library version, opposite-endian twin, payload bit, stale CRC, stored mismatch flag), re-sealed where the field comparison must decide. Oracle: independent validity predicate for is_invalid_fragment and for verify_stripe_metadata. Non-trivial: re-sealed single-field edit.',
     'C13': 'argument grid: 16 public entry points x every argument position x {valid, NULL, destroyed / never-issued / -1 / 0 / INT_MAX / INT_MIN descriptor, fragment counts INT_MIN,-1,0,k-1, fragment lengths 0,1,79, destinations -1,k+m,INT_MAX,INT_MIN, back-end ids 9,100,INT_MAX,-1}: all single substitutions, all combinations of >=2 NULL pointers (also with a dead descriptor), never-issued descriptor x every other bad value, on 4 configurations, plus generated combinations; LeakSanitizer recoverable check after every case. Configuration box: back-end id 0..8 x k,m in -1..33 x hd 0..7 x w in {-1,0,4,7,8,16,32,64} (columns + boundary sample in quick, full in thorough) plus generated points: unsupported shape -> refused by every back end; anything accepted must survive encode(0,1,min+1)/decode complete and with tolerance-many erasures/reconstruct/size queries/fragments_needed/destroy. Non-trivial: bad argument not in first position or combined (grid); within 1 of an acceptance boundary (box).',
     'C14': 'histories over <=4 slots of create (5 back ends, many shapes), failing create (7 kinds), destroy, destroy of dead descriptors, use (encode/decode/reconstruct vs reference), probe of 12 entry points with a dead descriptor, and presets of the exported descriptor counter to INT_MAX-3..INT_MAX; after EVERY step a behavioural scan of the registry (size query on every descriptor ever seen +-2, 1..8 and INT_MAX-8..INT_MAX after a preset) must equal the model and every live instance must round-trip; plus all sequences over a 12-symbol alphabet to depth 5 (quick) / 6 (thorough). Non-trivial: two live instances of one back end at some point and a non-LIFO destroy or a counter wrap.',
-    'C15': 'histories mixing encode/decode/reconstruct/metadata/validation/failing calls/other instances/encode on a fresh thread; at the end every kept stripe is decoded, reconstructed and re-encoded with all inputs (data, every fragment, the pointer array) on PROT_READ pages flush against PROT_NONE pages (end- or start-flush, aligned and unaligned); every encode output must equal the independent serializer (a pure function of configuration and data). Non-trivial: same (configuration, data) encoded at two points of the history and a rebuild happened.',
+    'C15': 'histories mixing encode/decode/reconstruct/metadata/validation/failing calls/other instances/encode on a fresh thread; at the end every kept stripe is decoded, reconstructed and re-encoded with all inputs (data, every fragment, the pointer array) on PROT_READ pages flush against PROT_NONE pages (end- or start-flush, aligned and unaligned); every encode output must equal the independent serializer (a pure function of configuration and data); plus a sweep under guard pages: every flat-XOR table x every erasure set below hd (decode + reconstruct of each lost index; aligned inputs ending exactly at the guard page, start-flush, and unaligned) and every RS/ISA-L shape with |E|=m. Non-trivial: same (configuration, data) encoded at two points of the history and a rebuild happened.',
     'C16': 'histories (<=300 steps) mixing valid calls with cleanup, beyond-tolerance/duplicated/insufficient sets, damaged headers, invalid arguments, failing creates and dead-descriptor probes; ASan reports double free / use-after-free at once, LeakSanitizer recoverable check after destroying all instances at the end of each history; plus one encode/decode/cleanup/destroy + leak check per shape. Non-trivial: at least one failing call and one successful rebuild in the history.',
     'C17': 'fault enumeration: the back end operation tables are patched with wrappers that fail chosen call numbers (three modes: fail before the work, do the work then report failure, another negative code). Enumerated: a scripted workload (create, 3 encodes, decode with lost data / lost parity, reconstruct data / parity, 2 fragments_needed, second create, destroy, encode, decode) per back end x every call position of init/encode/decode/reconstruct/fragments_needed x 3 modes; generated: random workloads with random fault sets. Oracle: public rc<0 for the faulted call, no cleanup call made and LeakSanitizer clean, immediate retry succeeds with exact results, registry usable, plugin dlopen reference returned. Non-trivial: at least one injected fault was reached.',
     'C19': 'both ISA-L adapters on the clean-room libisal.so.2: enumerated - every (k,m) with k+m<=8 (quick) / 12 (thorough), every erasure set |E|<=m+1, decode + reconstruct of every lost index and one present index, two table encodings of the stand-in (adapter must treat tables as opaque); generated - all shapes to k+m=32 with permutations/duplicates/alignment; injected inversion failures (the stand-in fails the next gf_invert_matrix call): public call must fail, LeakSanitizer clean, retry exact; fragments_needed for the adapters with the C06 oracle. Oracle: exact when the first k surviving generator rows are invertible over GF(2^8) (independent model), error when the survivors have rank < k, either when only another subset is invertible. Non-trivial: a data fragment erased or a lost destination rebuilt; an inversion failure actually injected.',
@@ -418,7 +418,7 @@ for _m in ['c06', 'c06_xor_sweep', 'c06_rs_sweep']:
     MODE_HARNESS[_m] = ('h_needed', 'asan')
 for _m in ['c13_grid', 'c13_grid_rc', 'c13_box', 'c13_box_rc']:
     MODE_HARNESS[_m] = ('h_args', 'asan')
-for _m in ['c14', 'c14_exhaustive', 'c15', 'c16', 'c16_pairs']:
+for _m in ['c14', 'c14_exhaustive', 'c15', 'c15_guard_sweep', 'c16', 'c16_pairs']:
     MODE_HARNESS[_m] = ('h_state', 'asan')
 for _m in ['c17', 'c17_single']:
     MODE_HARNESS[_m] = ('h_fault', 'asan')
